@@ -38,13 +38,13 @@ func NewForwardedModifier() martian.RequestModifier {
 				return nil
 			}
 
-			if v := req.Header.Get("X-Forwarded-Proto"); v == "" {
+			if v := strings.Join(req.Header.Values("X-Forwarded-Proto"), ""); v == "" {
 				req.Header.Set("X-Forwarded-Proto", req.URL.Scheme)
 			}
-			if v := req.Header.Get("X-Forwarded-Host"); v == "" {
+			if v := strings.Join(req.Header.Values("X-Forwarded-Host"), ""); v == "" {
 				req.Header.Set("X-Forwarded-Host", req.Host)
 			}
-			if v := req.Header.Get("X-Forwarded-Url"); v == "" {
+			if v := strings.Join(req.Header.Values("X-Forwarded-Url"), ""); v == "" {
 				req.Header.Set("X-Forwarded-Url", req.URL.String())
 			}
 
